@@ -96,6 +96,18 @@ theorem history_sound (cfg : AuthCfg) (cmd : Cred → Bool) (hist : List (Nat ×
     | cons e rest ih => intro c hc; exact ih _ (check_honest cfg cmd c e.1 e.2 hc)
   exact this [] (by intro e he; simp at he)
 
+/-- an external command that cannot be started vouches for nobody (`cmd = fun _ => false`: spawn failure is a
+    rejection): after EVERY history of checks, a positive verdict names a pair from the static user list -/
+theorem unavailable_helper_admits_only_listed_users (cfg : AuthCfg) (hist : List (Nat × Option Cred)) (now : Nat)
+    (u : Option Cred) (hreq : cfg.required = true)
+    (h : (check cfg (fun _ => false) (hist.foldl (fun c (e : Nat × Option Cred) => (check cfg (fun _ => false) c e.1 e.2).2) []) now u).1 = true) :
+    ∃ cr, u = some cr ∧ cr ∈ cfg.users := by
+  obtain ⟨cr, hu, hv⟩ := check_sound cfg (fun _ => false) _ now u hreq (history_sound cfg (fun _ => false) hist) h
+  refine ⟨cr, hu, ?_⟩
+  rcases hv with hl | ⟨_, hc⟩
+  · exact hl
+  · simp at hc
+
 /-- **SOCKS5**: when credentials are required, a request is routed only if the client went through the
     username/password exchange with valid credentials — whatever methods it offers, in whatever order -/
 theorem socks5_no_route_without_creds (cfg : AuthCfg) (cmd : Cred → Bool) (c : Cache) (now : Nat) (cl : Client5)
